@@ -10,7 +10,7 @@ from . import common
 
 ID = "C06"
 LEVEL = "exploration"
-BUDGET = {"quick": 1300, "thorough": 25000}
+BUDGET = {"quick": 1300, "thorough": 250000}
 TECHNIQUE = "property-based testing: pairs of generated plotfiles on one mesh with independent layouts; independent reader + concat-by-index-range model"
 RULE = ("Hypothesis-generated 3D mesh (1-3 nested levels, mixed extents, non-zero origin, anisotropic) instantiated "
         "twice with independent field lists (overlapping names), payloads (incl. special floats) and binary layouts "
